@@ -15,6 +15,7 @@ GNext ==
      \/ \E t \in Trials : A_Pause(t, nextLv[t] - 1) /\ H([a |-> "Pause", t |-> t])
      \/ \E t \in Trials : A_Stop(t) /\ H([a |-> "Stop", t |-> t])
      \/ (A_Sleep /\ H([a |-> "Sleep"]))
+     \/ \E d \in cf.outs : owed = 0 /\ A_Outside(d) /\ H([a |-> "Outside", d |-> d])
 Emit == (Len(hist') = GenLen) => PrintT(<<"@@GEN@@", ToJson(hist')>>)
 GBound == Len(hist) <= GenLen
 =============================================================================
